@@ -251,6 +251,118 @@ def run_value(mon, ds, capmod, v, rnd):
         mon.scan_lambda(entry, s.query_ast.args[1])
 
 
+def twin_of(v):
+    """a value that compares equal to v and is another value (1 / True / 1.0, 0.0 / -0.0), or None"""
+    if isinstance(v, bool):
+        return int(v)
+    if isinstance(v, int) and v in (0, 1):
+        return bool(v)
+    if isinstance(v, int) and abs(v) < 2**53:
+        return float(v)
+    if isinstance(v, float) and v == 0.0:
+        return -v
+    if isinstance(v, float) and v.is_integer() and abs(v) < 2**53:
+        return int(v)
+    return None
+
+
+def container_histories(mon, ds, rnd, rounds=6):
+    """one container OBJECT handed to the library again and again while its owner goes on editing it in place - at the top and inside
+    what it holds (a nested list appended to, a nested value replaced by one that only compares equal): every emission is the value of
+    that moment"""
+    import copy
+
+    from func_adl.util_ast import as_ast
+
+    ctx = mon.ctx
+    block = {"code": ["a'b", "line\n2"], "options": {"scale": 1, "tags": ["x"]}, "n": [1, [2, (3, 4.0)]], "flag": True}
+    cols = ["pt", "eta", "b'c"]
+    trees = [["a", "b"], ["c"]]
+    for rd in range(rounds):
+        for entry, fn, pick, val in [
+            ("as_ast(same container again)", lambda: as_ast(block), lambda r: r, block),
+            ("MetaData(same container again)", lambda: ds.MetaData(block), lambda s: s.query_ast.args[1], block),
+            ("MetaData.value(same container again)", lambda: ds.MetaData({"k": trees}), lambda s: s.query_ast.args[1].values[0], trees),
+            ("AsPandasDF(same column list again)", lambda: ds.AsPandasDF(cols), lambda s: s.query_ast.args[1], cols),
+            ("AsROOTTTree(same column list again)", lambda: ds.AsROOTTTree("f", "t", cols), lambda s: s.query_ast.args[1], cols),
+            ("as_ast(same list again)", lambda: as_ast(trees), lambda r: r, trees),
+        ]:
+            try:
+                node = pick(fn())
+            except Exception as e:
+                mon.raised(entry, copy.deepcopy(val), e)
+                continue
+            mon.check_node(entry, copy.deepcopy(val), node)
+            ctx.count("container-history-emissions")
+        # the owner edits: mostly inside
+        k = rnd.randrange(8)
+        if k == 0:
+            block["code"].append(f"more{rd}")
+        elif k == 1:
+            block["options"]["scale"] = twin_of(block["options"]["scale"]) if rnd.random() < 0.6 else rd + 2
+        elif k == 2:
+            block["n"][1][0] = float(block["n"][1][0]) if isinstance(block["n"][1][0], int) else int(block["n"][1][0])
+        elif k == 3:
+            block["options"]["tags"] = list(block["options"]["tags"]) + ["y'"]
+        elif k == 4:
+            trees[1].append("m")
+        elif k == 5:
+            trees[0][0] = trees[0][0] + "\\"
+        elif k == 6:
+            cols[rnd.randrange(len(cols))] = f"col {rd}\"q"
+        else:
+            block["n"] = [True if x == 1 and not isinstance(x, bool) else x for x in block["n"]] if rnd.random() < 0.5 else block["n"] + [rd]
+    ctx.count("container-histories")
+
+
+CB_SRC = modgen.DS_HEADER + '''
+from typing import Iterable
+from func_adl import func_adl_callback
+BLOCK = [None]
+def cb_block(s, a):
+    return s.MetaData(dict(BLOCK[0])), a
+class CJet:
+    @func_adl_callback(cb_block)
+    def cal(self) -> float: ...
+class CEvt:
+    def jets(self) -> Iterable[CJet]: ...
+    @func_adl_callback(cb_block)
+    def met(self) -> float: ...
+'''
+
+
+def callback_blocks(mon, cbmod, v):
+    """a metadata block a callback attaches - at the top of the stage lambda and at a call site inside a nested lambda - next to a block
+    the stream carries already that compares equal to it and is another value (1 / True / 1.0): both are in the query, each as it is"""
+    ctx = mon.ctx
+    tw = twin_of(v)
+    if tw is None:
+        return
+    tds = cbmod.DS(cbmod.CEvt)
+    for entry, text in [("callback-block.top", "lambda e: e.met()"), ("callback-block.nested", "lambda e: e.jets().Select(lambda j: j.cal())"),
+                        ("callback-block.nested-twice", "lambda e: e.jets().Where(lambda j: j.cal() > 1).Select(lambda j: j.cal())")]:
+        cbmod.BLOCK[0] = {"factor": v}
+        try:
+            s = tds.MetaData({"factor": tw}).Select(text)
+        except Exception as e:
+            mon.raised(entry, v, e)
+            continue
+        blocks, node = [], s.query_ast.args[0]
+        while isinstance(node, ast.Call) and isinstance(node.func, ast.Name) and node.func.id == "MetaData":
+            blocks.append(node.args[1].values[0])
+            node = node.args[0]
+        ctx.count("entry:" + entry)
+        ctx.case(f"{entry}|{v!r}", True)
+        vals = []
+        for b in blocks:
+            try:
+                vals.append(leval(b)[0])
+            except Exception:
+                vals.append("<not a literal>")
+        if not any(valgen.deep_equal(x, v) for x in vals) or not any(valgen.deep_equal(x, tw) for x in vals):
+            ctx.violation(f"value-altered:{entry}", f"{entry}: the stream carried {{'factor': {tw!r}}}, the callback attached {{'factor': {v!r}}}; upstream of the operator the query holds {vals!r}", {"entry": entry, "value": repr(v)})
+
+
 WRITTEN = [
     "lambda e: None", "lambda e: ...", "lambda e: e.x == None", "lambda e: (e.x, None)", "lambda e: e.f(None)", "lambda e: e.f(k=...)",
     "lambda e: e.jets.Select(lambda j: None)", "lambda e: {'a': None}", "lambda e: [1, ...]", "lambda e: e.x if e.y else None",
@@ -331,6 +443,10 @@ def shard_main(ctx):
     mon = Mon(ctx)
     rnd = ctx.rnd
     written_constants(mon, ds)
+    cbmod = modgen.load(CB_SRC, "c13cb")
+    container_histories(mon, ds, rnd)
+    for v in (1, True, 1.0, 0, 0.0, -0.0, False, 3, 2.0):
+        callback_blocks(mon, cbmod, v)
     if ctx.shard == 0:
         subclass_values(ctx, ds)
         for p in valgen.PAYLOADS:
@@ -343,6 +459,10 @@ def shard_main(ctx):
             break
         v = valgen.gen_value(rnd)
         run_value(mon, ds, capmod, v, rnd)
+        if i % 50 == 7:
+            container_histories(mon, ds, rnd, rounds=4)
+        if i % 10 == 3:
+            callback_blocks(mon, cbmod, v)
         if len(ctx.samples) < 5 and rnd.random() < 0.01:
             ctx.sample({"value": repr(v), "entry_points": "all applicable"})
     modgen.cleanup()
@@ -350,6 +470,12 @@ def shard_main(ctx):
 
 def replay(ctx, witness):
     capmod = modgen.load(CAP_SRC, "c13cap")
+    if "again" in witness.get("entry", ""):
+        container_histories(Mon(ctx), capmod.DS(), random.Random(0), rounds=12)
+        modgen.cleanup()
+        return
     v = ast.literal_eval(witness["value"])
+    if witness.get("entry", "").startswith("callback-block"):
+        callback_blocks(Mon(ctx), modgen.load(CB_SRC, "c13cb"), v)
     run_value(Mon(ctx), capmod.DS(), capmod, v, random.Random(0))
     modgen.cleanup()
